@@ -15,9 +15,9 @@ func init() {
 
 func c01Plan(c *core.Ctx) (plan, int) {
 	if c.Thorough() {
-		return plan{fullDepth: 3, coreDepth: 5, strDepth: 2, pairDepth: 2, alphabet: tm.REG}, 5
+		return plan{fullDepth: 4, coreDepth: 6, strDepth: 2, pairDepth: 2, alphabet: tm.REG}, 4
 	}
-	return plan{fullDepth: 2, coreDepth: 4, strDepth: 2, pairDepth: 1, alphabet: tm.REG}, 3
+	return plan{fullDepth: 3, coreDepth: 4, strDepth: 2, pairDepth: 1, alphabet: tm.REG}, 3
 }
 
 func runC01(c *core.Ctx, r *core.Result) {
